@@ -160,3 +160,16 @@ Theorem C03_disciplined_trace_example :
   lock_order (sched ex_trace) = [1; 0; 2].
 Proof. exact ex_trace_ok. Qed.
 Print Assumptions C03_disciplined_trace_example.
+
+(* the serial schedule is a rearrangement: every operation keeps exactly its own events in its own order *)
+Theorem C03_serial_keeps_each_operation : forall s o,
+  legal free s -> covered free s -> proj o (serial s) = proj o s.
+Proof. exact serial_keeps_each_operation. Qed.
+Print Assumptions C03_serial_keeps_each_operation.
+
+(* what the harness asks Coq about every recorded lock schedule (harness/twophase.py): the answer it expects means that the
+   schedule is legal and two-phase and that the order it compares with is lock_order *)
+Theorem C03_recorded_schedule_report_sound : forall s order,
+  sched_report s = 1 :: 1 :: order ++ [999] -> legal free s /\ two_phase s /\ lock_order s = order.
+Proof. exact sched_report_sound. Qed.
+Print Assumptions C03_recorded_schedule_report_sound.
